@@ -64,7 +64,7 @@ LEVEL_NOTE = ('trusted: SimSocket/AF_UNIX delivery, the per-process swap of the 
               '60 + 6*ceil(bytes/4096) fair rounds after the last fault')
 RULE = ('each run = topology (one client / one client process with two peers / two client processes, optional raw peer) + firewalls + '
         '1..N calls with generated JSON payloads + schedule + read cuts + hostile packets, all from one tape; non-trivial = at least two '
-        'legitimate calls were issued of which one was in flight together with another or was cut / larger than the read buffer, or a '
+        'legitimate calls were issued of which one was in flight together with another or larger than the read buffer, or a read was cut, or a '
         'hostile packet was sent; distinct = digest of the (call, dispatch, completion, hostile action) log')
 STATE_MEASURE = '(topology, calls in flight when a call was issued, packet size class, cut class of the read that carried it, hostile packet class)'
 REAL = ['circuits.node.Node / Server / Client / Protocol / utils (dump/load event and value)', 'circuits.net.sockets.TCPServer / TCPClient',
@@ -78,7 +78,7 @@ ASSUMPTIONS = ['the `success` flag of a received event is forced to True by Prot
                'what the sender obtains for a firewall-rejected event is not judged (the statement only forbids transmission / dispatch)',
                'calls on a connection whose peer aborted, or of a process that died, are not judged (only loop survival and the other connections are)',
                'hostile packets never use event names of the framework itself (close, stopped, ...): without a firewall a peer may fire any event by design',
-               'a raw peer that sent undecodable bytes or unprotected meta keys is owed no answers; it only must not harm the loop or other connections',
+               'a raw peer is owed executions / answers only for the valid calls it sends before its first malformed packet or unprotected meta key; afterwards it only must not harm the loop or other connections',
                'server -> client calls always carry explicit channels (an empty channel tuple is replaced by the receiver, which the statement does not cover)']
 PROBES = ['call:c2s', 'call:s2c', 'call:concurrent', 'call:big', 'completed', 'fault:short_read', 'cut:in-delimiter', 'cut:tiny', 'cut:uniform',
           'cut:in-multibyte', 'packet:split', 'fw:send-blocked', 'fw:recv-blocked', 'topo:B1', 'topo:B2', 'topo:BC', 'hostile:valid', 'hostile:mutated',
@@ -229,11 +229,14 @@ class CutPolicy(NoFaults):
         pend = peek(sock, min(n, 1 << 16))
         if len(pend) < 2:
             return None
-        kind = ch.weighted([3, 3, 3], 'cut-kind')
-        if kind == 0:
+        kind = ch.weighted([3, 3, 3, 2], 'cut-kind')
+        mb = next((i for i in range(1, len(pend)) if pend[i] & 0xC0 == 0x80), -1) if kind == 3 else -1
+        if kind == 3 and mb > 0:
+            k = mb                                               # between the bytes of a multi-byte character
+        elif kind == 0:
             k = 1 + ch.draw(min(len(pend) - 1, 8), 'cut-tiny')
             sim.ctx.stat('cut:tiny')
-        elif kind == 1:
+        elif kind in (1, 3):
             k = 1 + ch.draw(len(pend) - 1, 'cut-uniform')
             sim.ctx.stat('cut:uniform')
         else:
@@ -388,6 +391,8 @@ class Sim:
             st = self.rx.setdefault(sock.sim_id, [bytearray(), []])
             st[0] += data
             st[1].append(len(st[0]))
+            if not data.endswith(DELIMITER):
+                self.ctx.stat('packet:split')
 
     def connect_client(self, p, name, fw=None):
         A = self.procs['A']
@@ -465,7 +470,8 @@ class Sim:
 
     # ------------------------------------------------------------------ issuing calls
     def in_flight(self, conn=None, proc=None):
-        return [c for c in self.calls if c.done is None and not c.blocked and (conn is None or c.conn is conn) and (proc is None or c.src is proc)]
+        # (a call whose connection died stays in the sender's table for ever)
+        return [c for c in self.calls if c.done is None and c.blocked != 'send' and (conn is None or c.conn is conn) and (proc is None or c.src is proc)]
 
     def issue(self, probe=False):
         ch, ctx = self.ch, self.ctx
@@ -639,6 +645,10 @@ class Sim:
         hp = self.hp
         if pieces and len(data) > 2 and not self.align:
             k = 1 + self.ch.draw(len(data) - 1, 'piece-cut')
+            mb = next((i for i in range(k, len(data)) if data[i] & 0xC0 == 0x80), -1)
+            if mb > 0 and self.ch.chance(1, 2, 'piece-in-multibyte'):
+                k = mb
+                self.ctx.stat('cut:in-multibyte')
             hp.send(data[:k])
             self.ticks(self.procs['A'], 1 + self.ch.draw(3, 'piece-gap'))
             hp.send(data[k:])
@@ -647,7 +657,7 @@ class Sim:
             hp.send(data)
         hp.clean = bytes(hp.sent[-3:]) == DELIMITER and not hp.out
 
-    def h_valid_packet(self, extra_meta=None, raw_utf8=False, big=0):
+    def h_valid_packet(self, extra_meta=None, big=0):
         ch = self.ch
         n = len(self.hcalls)
         tok = 'h%d#' % n
@@ -686,12 +696,18 @@ class Sim:
         kind = ch.weighted([4, 4, 3, 4, 2, 2], 'hostile-kind')
         pieces = ch.chance(1, 4, 'pieces?')
         self.hostile_sent += 1
+        if kind not in (0, 3):
+            # the statement promises a misbehaving peer nothing for its own later packets (a malformed packet may e.g. take the rest
+            # of its read with it); only the loop, the dispatcher attributes and the other connections are protected
+            hp.owed = False
         if kind in (0, 3):
             # a well-formed call, optionally with meta keys from the grammar
             meta = {}
             free = False
             if kind == 3:
                 pool = PROTECTED_META * 2 + FREE_META + ([] if K_CAUSE in avoid else CAUSE_META * 3)
+                if not self.allow_valuekey:
+                    pool = [k for k in pool if k != 'value']     # '"value":' anywhere in a call packet makes it a result packet
                 for _ in range(ch.randint(1, 3, 'n-meta')):
                     k = ch.choice(pool, 'meta-key')
                     meta[k] = ch.choice(META_VALS, 'meta-val')
@@ -701,11 +717,14 @@ class Sim:
             big = ch.choice(self.cfg['big'], 'h-big') if (self.big_on and ch.chance(1, 8, 'h-big?')) else 0
             if not hp.clean:
                 self.h_send(DELIMITER)            # resynchronise after junk without delimiter
-            d, tok, feats = self.h_valid_packet(meta, raw_utf8, big)
+            d, tok, feats = self.h_valid_packet(meta, big)
+            valuekey_meta = 'value' in meta
             # payloads with the delimiter or a "value" key are judged on node-to-node calls only
             owed = hp.owed and not free and not any(f.startswith(('delim', 'valuekey')) for f in feats)
             if free:
                 hp.owed = hp.owed and not any(k in CAUSE_META for k in meta)
+            if valuekey_meta:
+                feats.add('valuekey:call')
             self.h_register(d, tok, feats, owed)
             data = json.dumps(d, ensure_ascii=not raw_utf8).encode('utf-8') + DELIMITER
             ctx.stat('hostile:meta' if kind == 3 else 'hostile:valid')
@@ -723,8 +742,6 @@ class Sim:
             self.h_send(data + DELIMITER, pieces)
         elif kind == 2:
             data, desc, poison = self.junk_bytes()
-            if poison:
-                hp.owed = False
             ctx.stat('hostile:bytes')
             ctx.state(('hostile', 'bytes', desc.split(':')[0]))
             ctx.log('hostile', 'bytes', desc, len(data))
@@ -868,7 +885,8 @@ class Sim:
         total, bounds = self.rx_bounds(conn, 'c' if sender == 's' else 's')
         if e > total:
             return 'undelivered'
-        return 'split' if any(s < b < e for b in bounds) else None
+        # a boundary inside the packet, or inside the delimiter in front of it (the stray tildes then stick to this packet)
+        return 'split' if any(s - len(DELIMITER) < b < e and b != s for b in bounds) else None
 
     def locate(self, stream, needle):
         i = stream.find(needle)
@@ -884,13 +902,8 @@ class Sim:
         """Refine a failed call into a root-cause key from ground truth; None = no known shape."""
         feats = c.feats
         snd, rcv = ('s', 'c') if c.dirn == 's2c' else ('c', 's')
-        if any(f == 'delim:call' for f in feats) or (clause != 'never-ran' and 'delim:result' in feats):
-            return K_DELIM, 'its payload contains the packet delimiter ~~~'
-        if clause == 'never-ran' and 'valuekey:call' in feats:
-            return K_VALUEKEY, 'the call carries a dict key "value", so the packet is taken for a result packet'
-        if clause == 'never-arrived' and c.behav == 'raise' and len(c.runs) == 1:
-            return K_RAISE, 'the handler raised: no result packet is ever sent for a failed event'
         tx = self.tx_stream(c.conn, snd)
+        back = self.tx_stream(c.conn, rcv)
         loc = self.locate(tx, c.tok.encode())
         wire_id = None
         if loc is not None:
@@ -898,32 +911,42 @@ class Sim:
                 wire_id = json.loads(tx[loc[0]:loc[1] - len(DELIMITER)].decode())['id']
             except (ValueError, KeyError, TypeError):
                 wire_id = None
-            cut = self.packet_cut(c.conn, snd, *loc)
-            if cut == 'split':
-                return K_SPLIT, 'its call packet (%d bytes) reached the receiving Protocol in more than one read' % (loc[1] - loc[0])
-        if wire_id is not None and clause != 'never-ran':
-            back = self.tx_stream(c.conn, rcv)
-            for s, e, obj, complete in packets_of(back):
-                if is_value(obj) and obj.get('id') == wire_id and self.packet_cut(c.conn, rcv, s, e) == 'split':
-                    return K_SPLIT, 'its result packet (%d bytes) reached the sending Protocol in more than one read' % (e - s)
+        # (each guess needs its evidence on the wire, so that another defect is not filed under a known key)
+        if 'delim:call' in feats and loc is not None and wire_id is None:
+            return K_DELIM, 'its payload contains the packet delimiter ~~~, which cuts the call packet in two'
+        if clause != 'never-ran' and 'delim:result' in feats and any(o is None and done for _, _, o, done in packets_of(back)):
+            return K_DELIM, 'its result contains the packet delimiter ~~~, which cuts the result packet in two'
+        answered = wire_id is not None and any(is_value(o) and J(o.get('id')) == J(wire_id) for _, _, o, _ in packets_of(back))
+        if clause == 'never-arrived' and c.behav == 'raise' and len(c.runs) == 1 and not answered:
+            return K_RAISE, 'the handler raised: no result packet is ever sent for a failed event'
+        if clause == 'never-ran' and loc is not None and self.packet_cut(c.conn, snd, *loc) == 'split':
+            return K_SPLIT, 'its call packet (%d bytes) reached the receiving Protocol in more than one read' % (loc[1] - loc[0])
+        if clause == 'never-ran' and 'valuekey:call' in feats:
+            return K_VALUEKEY, 'the call carries a dict key "value", so the packet is taken for a result packet'
         if wire_id is not None and c.src is not None:
             # more value packets with this id on the call's own connection than calls with this id: the far end answered somebody else's call here
-            nv = len([1 for _, _, o, _ in packets_of(self.tx_stream(c.conn, rcv)) if is_value(o) and J(o.get('id')) == J(wire_id)])
+            vals = [o for _, _, o, _ in packets_of(self.tx_stream(c.conn, rcv)) if is_value(o) and J(o.get('id')) == J(wire_id)]
             nc = len([1 for _, _, o, _ in packets_of(tx) if is_call(o) and J(o.get('id')) == J(wire_id)])
-            if nv > nc and len(c.dst.conns) > 1:
-                return K_BCAST, 'process %s wrote %d result packet(s) with id %s on connection %d, which carried %d such call(s)' % (c.dst.tag, nv, wire_id, c.conn.k, nc)
+            foreign = [o for o in vals if (not o.get('errors') if c.behav == 'raise' else J(o.get('value')) != J(c.result))]
+            if (len(vals) > nc or foreign) and len(c.dst.conns) > 1:
+                return K_BCAST, 'process %s wrote %d result packet(s) with id %s on connection %d (%d of them not this call\'s result), which carried %d such call(s)' % (
+                    c.dst.tag, len(vals), wire_id, c.conn.k, len(foreign), nc)
             # a value packet with this id that arrived in the sender's process on another connection
             for other in c.src.conns:
                 if other is c.conn:
                     continue
                 o_snd = 's' if c.src is not self.procs['A'] else 'c'      # the far end of `other` as seen from c.src
-                for s, e, obj, complete in packets_of(self.tx_stream(other, o_snd)):
-                    if is_value(obj) and J(obj.get('id')) == J(wire_id):
-                        if other.raw is None:
-                            mine = [o for _, _, o, _ in packets_of(self.tx_stream(other, 'c' if o_snd == 's' else 's')) if is_call(o) and J(o.get('id')) == J(wire_id)]
-                            if not mine:
-                                return K_BCAST, 'the far end wrote a result with id %s on connection %d, which never carried such a call' % (wire_id, other.k)
-                        return K_SHARED, 'a value packet with the same id %s arrived on connection %d of the same process' % (wire_id, other.k)
+                theirs = [o for _, _, o, _ in packets_of(self.tx_stream(other, o_snd)) if is_value(o) and J(o.get('id')) == J(wire_id)]
+                if theirs:
+                    mine = [o for _, _, o, _ in packets_of(self.tx_stream(other, 'c' if o_snd == 's' else 's')) if is_call(o) and J(o.get('id')) == J(wire_id)]
+                    if other.raw is None and len(theirs) > len(mine):
+                        return K_BCAST, 'the far end wrote %d result(s) with id %s on connection %d, which carried %d such call(s)' % (len(theirs), wire_id, other.k, len(mine))
+                    return K_SHARED, 'a value packet with the same id %s arrived on connection %d of the same process' % (wire_id, other.k)
+        if wire_id is not None and clause != 'never-ran':
+            for s, e, obj, complete in packets_of(back):
+                if is_value(obj) and obj.get('id') == wire_id and self.packet_cut(c.conn, rcv, s, e) == 'split':
+                    return K_SPLIT, 'its result packet (%d bytes) reached the sending Protocol in more than one read' % (e - s)
+        if wire_id is not None and c.src is not None:
             for o in self.calls:
                 if o is not c and o.src is c.src and o.conn is not c.conn and not o.blocked and self.overlap(c, o):
                     return K_SHARED, 'calls %s and %s of process %s were in flight on two connections; ids restart at 0 per connection but the table is shared' % (
@@ -1076,6 +1099,8 @@ class Sim:
                     self.hconn.dead = True
                 for _ in range(6):
                     self.tick(A)
+            if self.failed:
+                return
         self.cuts_on = False
         self.connect_client(B, 'p1', fwB)
         if self.topo == 'B2':
@@ -1129,7 +1154,7 @@ class Sim:
             return
         if self.hostile_sent and B.alive:
             # "a subsequent legitimate call still completes"
-            probe = self.issue(probe=True)
+            self.issue(probe=True)
             self.drain('probe')
             if self.failed:
                 return
@@ -1198,7 +1223,6 @@ class Sim:
                 self.judge_call(c)
 
     def judge_all(self):
-        ctx = self.ctx
         if any('Unhandled ERROR' in s for s in W.stderr):
             return self.fail('C19/loop-survives/unhandled-error-on-stderr', ''.join(W.stderr)[:300])
         for c in self.calls:
